@@ -142,9 +142,14 @@ func (db *DB) Compact() (CompactionResult, error) {
 		db.maintenanceMu.Unlock()
 	}()
 
-	db.mu.RLock()
+	db.mu.Lock()
 	segments := db.pickForCompaction()
-	db.mu.RUnlock()
+	// Seal the picked segments right away. A delete record appended to a picked segment later on
+	// would be discarded together with the segment while older segments still hold the key.
+	for _, seg := range segments {
+		seg.meta.Full = true
+	}
+	db.mu.Unlock()
 
 	for _, seg := range segments {
 		segcr, err := db.compact(seg)
